@@ -561,11 +561,41 @@ fn all_arbiter_scenarios() -> Vec<String> {
     vec!["1|0", "2|01", "2|10", "3|012", "3|021", "3|102", "3|120", "3|201", "3|210"].into_iter().map(|x| x.to_string()).collect()
 }
 
+// ------------------------------------------------------------------ family: lines (hostile command lines, then a probe from a second client)
+fn scenario_lines(sc: &str) -> Result<Violations, String> {
+    let w = mk_world(0);
+    let mut v: Violations = vec![];
+    let (mut c, mut rx) = Client::new_empty_and_receiver();
+    let auth = sc.starts_with("A:");
+    let line = if auth { &sc[2..] } else { sc };
+    if auth { run_cmd(&w, &mut c, &mut rx, "auth u p"); run_cmd(&w, &mut c, &mut rx, "use-db d tok"); }
+    let out = catch_unwind(AssertUnwindSafe(|| run_cmd(&w, &mut c, &mut rx, line)));
+    chk(&mut v, "C10.safety", out.is_ok());
+    let (mut c2, mut rx2) = Client::new_empty_and_receiver();
+    let probe = catch_unwind(AssertUnwindSafe(|| { run_cmd(&w, &mut c2, &mut rx2, "use-db d tok"); run_cmd(&w, &mut c2, &mut rx2, "set probe 1"); run_cmd(&w, &mut c2, &mut rx2, "get probe") }));
+    chk(&mut v, "C10.safety", match probe { Ok((r, _)) => !is_err(&r), Err(_) => false });
+    Ok(v)
+}
+fn all_lines_scenarios() -> Vec<String> {
+    let words = ["get", "get-safe", "set", "set-safe", "remove", "increment", "keys", "ls", "watch", "unwatch", "unwatch-all", "use", "use-db", "auth", "create-db", "create-user",
+        "set-permissions", "snapshot", "election", "election candidate", "election win", "ack", "rp", "replicate", "replicate-remove", "replicate-increment", "replicate-since",
+        "replicate-snapshot", "resolve", "debug", "arbiter", "cluster-state", "metrics-state", "list-commands", "set-primary", "set-secoundary", "nosuch", ""];
+    let args = ["", " ", "x", "x y", "x 2147483647 v", "x -2147483648 v", "x -2 v", "k 2147483647", "k -2147483648", "18446744073709551616 s", "340282366920938463463374607431768211456 n",
+        "x y z w v", "$$token", "a;b", "é ü", "d k"];
+    let mut out = vec![];
+    for w in words { for a in args { let l = format!("{} {}", w, a); out.push(l.trim_end().to_string()); out.push(format!("A:{}", l.trim_end())); } }
+    out.sort(); out.dedup();
+    // an administrator may legitimately change $$token, after which the probe's login would fail: not a crash
+    out.retain(|l| !(l.starts_with("A:") && l.contains("$$token")));
+    out.retain(|l| { let b = l.trim_start_matches("A:"); !(b.starts_with("election") && l.starts_with("A:")) && !b.starts_with("join") && !b.starts_with("leave") && !b.starts_with("set-primary") && !b.starts_with("set-secoundary") && !b.starts_with("replicate-since") && !(b.starts_with("debug") && l.starts_with("A:")) });
+    out
+}
+
 fn families() -> Vec<(&'static str, fn() -> Vec<String>, fn(&str) -> Result<Violations, String>)> {
     vec![("store", all_store_scenarios, scenario_store), ("strategy", all_strategy_scenarios, scenario_strategy),
          ("pending", all_pending_scenarios, scenario_pending), ("ids", all_ids_scenarios, scenario_ids),
          ("oplog", all_oplog_scenarios, scenario_oplog), ("session", all_session_scenarios, scenario_session),
-         ("arbiter", all_arbiter_scenarios, scenario_arbiter)]
+         ("arbiter", all_arbiter_scenarios, scenario_arbiter), ("lines", all_lines_scenarios, scenario_lines)]
 }
 
 fn main() {
